@@ -524,10 +524,12 @@ PROPS = {
                 "caller's message is overwritten after every Start",
     },
     "C12": {
-        "modules": ["Stun.Properties.C12", "Stun.Properties.C10L2"],
+        "modules": ["Stun.Properties.C12", "Stun.Properties.C10L2", "Stun.Proofs.ClientL2Msg", "Stun.Properties.C12L2"],
         "theorems": ["Stun.C12.delivery_by_id", "Stun.C12.message_is_datagram", "Stun.C12.unknown_to_fallback_only",
                      "Stun.C12.garbage_is_noop", "Stun.C12.reader_message_is_decode",
-                     "Stun.C10L2.run2_l1", "Stun.C10L2.k1_history_other_start_untouched"],
+                     "Stun.C10L2.run2_l1", "Stun.C10L2.k1_history_other_start_untouched",
+                     "Stun.C12L2.l2_message_is_datagram_of_same_id", "Stun.C10L2.l2_invocation_from_start",
+                     "Stun.ClientProofs.run2_msg", "Stun.ClientProofs.step2_msg"],
         "streams": ["client-hist"], "level": "proof", "predicate": pred_client("C12"),
         "rule": CLIENT_RULE + "; ids differing in one bit, datagrams longer than the 1024-byte reader buffer, unknown ids "
                 "and garbage interleaved",
